@@ -69,8 +69,24 @@ def profile(draw, n_min=2, n_max=5, max_ballots=60):
     # auditable ballots beyond the supplied records (the 'informal' count of a .raire header / a card upper bound)
     extra = draw(st.sampled_from([0, 0, 0, 1, 3, 10, 40]))
     return {"cands": cands, "ballots": ballots, "winner": winner, "order_hint": order,
-            "asn": draw(st.sampled_from(["bp_estimate", "cp_estimate"])), "tot_extra": extra,
+            "asn": draw(st.sampled_from(["bp_estimate", "bp_estimate", "cp_estimate", "cp_estimate"] + sorted(CUSTOM_DIFFICULTY))), "tot_extra": extra,
             "contest_name": draw(st.sampled_from(["c", "c", "339", 1])), "writeins": writeins}
+
+
+# difficulty functions: the two shipped ones, and others that decrease as the margin grows (the search is generic in it:
+# f(winner votes, loser votes, other ballots, total)); some take non-positive values
+CUSTOM_DIFFICULTY = {
+    "neg_margin_share": lambda w, l, o, t: -(w - l) / t,
+    "shifted_inverse_share": lambda w, l, o, t: t / (w - l) - 3.0,
+    "inverse_margin_votes": lambda w, l, o, t: 1.0 / (w - l),
+    "neg_margin_votes": lambda w, l, o, t: -1.0 * (w - l),   # values far below zero (the search once started from -10)
+}
+
+
+def difficulty(name):
+    from shangrla.raire import sample_estimator
+
+    return CUSTOM_DIFFICULTY[name] if name in CUSTOM_DIFFICULTY else getattr(sample_estimator, name)
 
 
 def raire_cvrs(prof, contest=None):
